@@ -164,7 +164,8 @@ def r7(run, ctx):
     f = ctx.fn('circus.process:Process.stop')
     cfg = ctx.cfg(f)
     direct = [n for n in ctx.live_nodes(f) for c in n.calls()
-              if isinstance(c.func, ast.Attribute) and c.func.attr in ('terminate', 'kill') and
+              if isinstance(c.func, ast.Attribute) and
+              c.func.attr in ('terminate', 'kill', 'send_signal') and
               '_worker' in norm_text(c.func.value)]
     if not run.need('R7', direct, 'direct terminate()/kill() of the child in Process.stop', f,
                     'Process.stop no longer terminates a child that is still alive'):
